@@ -215,6 +215,30 @@ def spread_scenario(sid, pattern, master_range, n, rng, order="", repl=REPL):
     return {"id": sid, "role": "", "steps": steps}
 
 
+def blip_scenario(sid, pre, victim, rng, down_reads=8, wait_ms=12000):
+    """A replica goes away for a moment (its connections die, new ones are refused) and comes back.  Once the pool's
+    health monitor has had its turn (it runs every 5 s, in real time), the replica is healthy again and must get its
+    share of the reads."""
+    lo, hi = 0, 5460          # slots of n1, whose replicas are r1 and r2
+    get = lambda: req("get", [rng.randrange(lo, hi + 1)])
+    steps = [step([st(op="topo", desc=default_desc(), kind=""), st(op="refresh")])]
+    if pre:
+        steps.append(step([st(op="send", c="c1", reqs=[get() for _ in range(pre)])]))
+        steps += drain(2, 30)
+    victims = victim.split("+")
+    steps.append(step([st(op="ndown", n=v) for v in victims]))
+    steps.append(step([]))
+    for _ in range(2):
+        steps.append(step([st(op="send", c="c1", reqs=[get() for _ in range(down_reads)])]))
+        steps += drain(1, 30)
+        steps.append(step([st(op="sleep", count=30)]))
+    steps.append({"stim": [st(op="nup", n=v) for v in victims] + [st(op="sleep", count=wait_ms)], "settle": False, "noIter": True})
+    for i in range(0, 240, 24):
+        steps.append(step([st(op="send", c="c1", reqs=[get() for _ in range(24)])]))
+        steps += drain(2, 30)
+    return {"id": sid, "role": "", "steps": steps}
+
+
 CFG = {"masters": 3, "replicas": REPL, "extraNodes": 1, "mode": "step"}
 
 # ---- interleavings of ticker() and the refresher goroutine (spec/RcTopo.tla) -------------------------------------------------
@@ -398,6 +422,12 @@ def run_generic(pid, tier, seed):
                 scs3.append(spread_scenario("spread3-%s" % pat, pat, ranges[k % 3], 150 if pat != "reads" else 300, rng,
                                             order=ORDERS[(k + 1) % 4], repl=3))
             groups.append((c3, scs3, "spread3", {}))
+            # a replica that was unreachable for a moment, with one or two connections per node, the pool empty, partly
+            # filled or full when it happens
+            blips = [blip_scenario("blip-%s-pre%d" % (v, pre), pre, v, rng) for pre, v in ([(1, "r1+r2"), (3, "r1+r2"), (2, "r2")] if q else
+                                                                                      [(p, v) for p in (0, 1, 2, 3, 5, 8) for v in ("r1", "r2", "r1+r2")])]
+            groups.append((dict(CFG, conns=2), blips, "blip2", {}))
+            groups.append((dict(CFG), blips[:2 if q else 6], "blip1", {}))
         viol, other = [], {}
         tot = {"states": 0, "transitions": 0, "traces": 0, "events": 0, "crashes": 0, "unrealised": 0, "harness_errors": [], "nontrivial": 0}
         samples = []
